@@ -23,7 +23,9 @@ LEX = {
                # the last numeral of every width and the first one beyond it (a 64-bit overflow need not have 20 digits)
                "9223372036854775807", "9223372036854775808", "9999999999999999999", "-9223372036854775808", "18446744073709551615",
                "4294967295", "4294967296", "2147483648", "-2147483649", "00000000000000000000007", "-0"],
-    "string": ['"s"', '""', '"hé€"', "\u201cs\u201d", '"' + "x" * 70 + '"'],
+    "string": ['"s"', '""', '"hé€"', "\u201cs\u201d", '"' + "x" * 70 + '"',
+               # longer than the 64 bytes a metadata text may have, with a character sitting across byte 64 / starting at it
+               '"' + "x" * 63 + "é€ and more" + '"', '"' + "x" * 62 + "€€" + '"', '"' + "\u4e2d" * 30 + '"', '"' + "x" * 64 + "é" + '"'],
     "bool": ["true", "false"],
     "hex_string": ["0x00", "0xabc", "0x" + "ab" * 40, "0xAB", "0x" + "11" * 28],
     "wildcard": ["*"],
@@ -237,6 +239,20 @@ def reference_bombs():
         out.append(("alias-chain:self-type", "type T { %s } %s tx t(p: B%d) {}" % (fields, chain, 4 * k - 1)))
         out.append(("self-reference:output", "party P; tx t() { input a { from: P, min_amount: Ada(1), } output b { to: P, amount: %s, } }"
                     % "+".join(["b"] * k)))
+    # flat programs with many definitions that depend on earlier ones (no definition mentions itself): a Fibonacci-like
+    # chain f_i = f_(i-1) + f_(i-2), a doubling chain in both orders, the same over inputs and outputs -- the work of the
+    # resolution passes must not grow with the depth of such a chain
+    for n in (12, 24, 40):
+        fib = " ".join("f%d: f%d + f%d," % (i, i - 1, i - 2) for i in range(2, n))
+        out.append(("dependency-chain:fibonacci", "tx t(f0: Int, f1: Int) { locals { %s } }" % fib))
+        dbl = " ".join("a%d: a%d + a%d," % (i, i + 1, i + 1) for i in range(n))
+        out.append(("dependency-chain:doubling", "tx t(a%d: Int) { locals { %s } }" % (n, dbl)))
+        dbl_rev = " ".join("a%d: a%d + a%d," % (i, i - 1, i - 1) for i in range(n, 0, -1))
+        out.append(("dependency-chain:doubling-rev", "tx t(a0: Int) { locals { %s } }" % dbl_rev))
+        ins = " ".join("input i%d { from: P, min_amount: i%d + i%d, }" % (i, i - 1, i - 1) for i in range(1, min(n, 24)))
+        out.append(("dependency-chain:inputs", "party P; tx t() { input i0 { from: P, min_amount: Ada(1), } %s }" % ins))
+        outs = " ".join("output o%d { to: P, amount: Ada(f%d), }" % (i, i) for i in range(n))
+        out.append(("dependency-chain:fibonacci+outputs", "party P; tx t(f0: Int, f1: Int) { locals { %s } %s }" % (fib, outs)))
     return out
 
 
